@@ -16,6 +16,22 @@ of a soft kill is a *fault* (`SAVE … kind=fault`, theorem `failed_save_leaves_
 entry must be absent or load correctly at EVERY such point; a poisoned entry after a soft kill is a
 real violation, never a known finding (the F13a/F13b windows are for hard kills only).
 
+HANDLED SIGTERM (sig = 'hterm'): the process executing the save receives a REAL SIGTERM (what the second Ctrl-C ->
+`ProcessExecutor.stop` -> `Process.terminate()` delivers) at the kill point while its SIGTERM disposition is - or, as far
+as the application / the task can tell, should be - a Python handler that raises (`sys.exit(143)`, the usual
+graceful-shutdown idiom). Flavours (case['hand'], case['be']):
+  * hand='run', be='serial' | 'fork': the task's own run() installs the handler (the save that follows runs in the same
+    process: the serial caller, or the real fork worker started through ProcessRunner._subprocess_func);
+  * hand='app', be='fork': the "application" installs it before run_tasks; the real fork worker inherits it.
+The strike happens inside the process that executes the save (the worker signals itself at the kill point). On the
+unchanged code the handler's SystemExit unwinds through BaseCache.save's cleanup, so this is a soft kill with the model
+of a fault: the entry must be absent or load correctly at EVERY point. If the handler is no longer the disposition at
+the strike (reset after run(), reset at worker start-up, ...) the process just dies; a poisoned entry left by that is a
+plain violation - the F13a/F13b matcher is for hard kills (SIGKILL, default-disposition SIGTERM) only.
+An END-TO-END variant runs alongside (harness/intr_real.py, modes double_handled_run / double_handled_app): real fork /
+spawn runs whose tasks spend their time inside the save (a result whose pickling sleeps), real double Ctrl-C while
+saving; afterwards no task may be cached-but-unloadable.
+
 LATER RUN ON OTHER BACKENDS (kind 'ctx'): for a task whose value depends on the Lab context through
 `.get(key, default)`, a handful of hard-kill points are followed, in the fresh interpreter, by
 `run_tasks` on the SPAWN (and fork) backend with that context, then by one more serial Lab: the outcome
@@ -40,6 +56,39 @@ from datetime import datetime
 HERE = os.path.dirname(os.path.dirname(os.path.abspath(__file__)))
 if HERE not in sys.path:
     sys.path.insert(0, HERE)
+
+SOFT = ('int', 'exit', 'hterm')      # kills that reach the process as a Python exception: the model of a FAULT applies
+HARD = ('kill', 'term')              # SIGKILL, default-disposition SIGTERM: the only kills F13a / F13b are about
+FLAVOURS = (('run', 'serial'), ('run', 'fork'), ('app', 'fork'))
+
+
+def _exit143(signum, frame):
+    """the usual graceful-shutdown handler: turn SIGTERM into SystemExit so that cleanup code runs"""
+    sys.exit(143)
+
+
+def _disposition():
+    h = signal.getsignal(signal.SIGTERM)
+    return 'default' if h == signal.SIG_DFL else 'ignored' if h == signal.SIG_IGN else \
+        'raising-handler' if h is _exit143 else 'other:' + repr(h)[:60]
+
+
+def _touch(path):
+    os.close(os.open(path, os.O_WRONLY | os.O_CREAT))
+
+
+def _reap_descendants():
+    """a process-backend Lab leaves multiprocessing.Manager servers behind when its creator ends with os._exit"""
+    try:
+        import psutil
+        for p in psutil.Process().children(recursive=True):
+            try:
+                p.kill()
+            except Exception:
+                pass
+    except Exception:
+        pass
+
 
 KNOWN = {'first': 'first_save_crash_between_mkdir_and_data_complete',
          'over': 'overwrite_crash_between_truncate_and_data_complete'}
@@ -72,12 +121,28 @@ def kill_case(case, root):
     else:
         LocalStorage(sd)   # the storage directory itself exists before the save starts
     sys.stdout.flush()
+    sigk, hand, be = case.get('sig'), case.get('hand'), case.get('be', 'serial')
     pid = os.fork()
     if pid == 0:
         # ---- the child: perform the save, die at the kill point
+        coord_pid = os.getpid()
         try:
             T.GEN = 1
-            sig = signal.SIGTERM if case.get('sig') == 'term' else signal.SIGKILL
+            sig = signal.SIGTERM if sigk == 'term' else signal.SIGKILL
+            # a defined starting disposition, whatever the harness process inherited or installed
+            signal.signal(signal.SIGTERM, signal.SIG_DFL)
+            signal.pthread_sigmask(signal.SIG_UNBLOCK, {signal.SIGTERM})
+            if sigk == 'hterm' and hand == 'app':
+                # the application's graceful-shutdown handler, installed before run_tasks (forked workers inherit it)
+                signal.signal(signal.SIGTERM, _exit143)
+            elif sigk == 'hterm':
+                # the task's own run() installs it (this child is a private copy of the task module)
+                orig_run = Type.run
+
+                def run(self):
+                    signal.signal(signal.SIGTERM, _exit143)
+                    return orig_run(self)
+                Type.run = run
 
             def die(st, extra):
                 cur = st.cur
@@ -88,18 +153,32 @@ def kill_case(case, root):
                 if c['path'] is not None and os.path.exists(c['path']):
                     size = os.path.getsize(c['path'])
                 rec = dict(counters=c, disk_size=size, open_file=(cur is not None and not cur.real.closed), **extra)
+                if sigk == 'hterm':
+                    rec.update(disposition=_disposition(), in_worker=(os.getpid() != coord_pid))
                 fd = os.open(side, os.O_WRONLY | os.O_CREAT | os.O_TRUNC)
                 os.write(fd, json.dumps(rec).encode())
                 os.close(fd)
-                if case.get('sig') == 'int':
+                if sigk == 'int':
                     # what Ctrl-C does: SIGINT -> KeyboardInterrupt raised in the main thread, here
                     signal.signal(signal.SIGINT, signal.default_int_handler)
                     os.kill(os.getpid(), signal.SIGINT)
                     for _ in range(1000):
                         time.sleep(0.001)      # the handler runs at the next bytecode boundary
                     raise KeyboardInterrupt('SIGINT was not delivered')
-                if case.get('sig') == 'exit':
+                if sigk == 'exit':
                     raise SystemExit(7)
+                if sigk == 'hterm':
+                    # what the second Ctrl-C does to the process executing the task: Process.terminate() = a real SIGTERM,
+                    # under whatever disposition is in force HERE (nothing is installed or restored at the strike)
+                    try:
+                        os.kill(os.getpid(), signal.SIGTERM)
+                        for _ in range(1000):
+                            time.sleep(0.001)
+                    except SystemExit:
+                        _touch(side + '.unwound')      # the handler ran: the exception now unwinds through the save
+                        raise
+                    _touch(side + '.ignored')          # the signal had no effect at all: the save simply goes on
+                    return
                 os.kill(os.getpid(), sig)
                 time.sleep(5)
                 os._exit(3)
@@ -108,14 +187,21 @@ def kill_case(case, root):
             st = W.WrapStorage(LocalStorage(sd), trigger=trig, action=lambda s, p: die(s, dict(point=list(p))), root=sd)
             tracer = None
             if inj[0] == 'line':
-                tracer = W.LineTracer(st, target=inj[1], action=lambda info: die(st, dict(line_info=info)))
+                Tracer = W.LineTracer
+                if be != 'serial':
+                    class Tracer(W.LineTracer):      # the save runs in a forked worker: count its lines there
+                        pid = property(lambda self: os.getpid(), lambda self, v: None)
+                tracer = Tracer(st, target=inj[1], action=lambda info: die(st, dict(line_info=info)))
                 sys.settrace(tracer)
-            lab = labtech.Lab(storage=st, runner_backend='serial', context={'gen': 1, 'scale': 10})
+            lab = labtech.Lab(storage=st, runner_backend=be, context={'gen': 1, 'scale': 10},
+                              **({} if be == 'serial' else {'max_workers': 1}))
             try:
                 lab.run_tasks([Type(idx)], bust_cache=(mode == 'over'), disable_progress=True, disable_top=True)
             except BaseException:
-                if case.get('sig') in ('int', 'exit'):
+                if sigk in SOFT:
                     sys.settrace(None)
+                    if os.getpid() == coord_pid:
+                        _reap_descendants()
                     os._exit(130)      # the interrupted process ends after unwinding
                 raise
             sys.settrace(None)
@@ -124,11 +210,16 @@ def kill_case(case, root):
                 os.write(fd, json.dumps(dict(completed=True)).encode())
                 os.close(fd)
         finally:
+            if os.getpid() == coord_pid:
+                _reap_descendants()
             os._exit(0)
     _, status = os.waitpid(pid, 0)
     killed = (os.WIFSIGNALED(status) and os.WTERMSIG(status) in (signal.SIGKILL, signal.SIGTERM)) or \
-        (case.get('sig') in ('int', 'exit') and os.path.exists(side))
+        (sigk in SOFT and os.path.exists(side))
     sc = json.load(open(side)) if os.path.exists(side) else {}
+    if sigk == 'hterm' and sc and not sc.get('completed'):
+        sc['unwound'] = os.path.exists(side + '.unwound')
+        sc['ignored'] = os.path.exists(side + '.ignored')
     T.EXEC_LOG = None
     return dict(case=case, dir=d, old_start=old_start, killed=killed, sidecar=sc)
 
@@ -278,6 +369,60 @@ def run_phase(flag, payloads, timeout):
         shutil.rmtree(tmp, ignore_errors=True)
 
 
+# ------------------------------------------------------------------ end to end: real double Ctrl-C while the workers are saving
+E2E = (('fork', 'double_handled_run'), ('spawn', 'double_handled_run'), ('fork', 'double_handled_app'))
+
+
+def e2e_runs(only=None, attempt=0):
+    """harness/intr_real.py in its double_handled_* modes, one subprocess per (backend, mode), in parallel; returns
+    (records, violations, not_exercised)"""
+    tmp = tempfile.mkdtemp(prefix='verif-c13e-')
+    try:
+        procs = []
+        env = dict(os.environ, PYTHONPATH=os.environ.get('VERIF_REPO', '/repo') + os.pathsep + HERE)
+        for be, mode in E2E:
+            if only is not None and (be, mode) not in only:
+                continue
+            op, lp = os.path.join(tmp, f'{be}_{mode}.json'), os.path.join(tmp, f'{be}_{mode}.log')
+            lf = open(lp, 'w')
+            procs.append((be, mode, op, lp, lf,
+                          subprocess.Popen([sys.executable, os.path.join(HERE, 'intr_real.py'), be, mode, op], stdout=lf, stderr=lf,
+                                           stdin=subprocess.DEVNULL, start_new_session=True, env=env, cwd=HERE)))
+        recs, viol, again = [], [], []
+        deadline = time.time() + 60
+        for be, mode, op, lp, lf, p in procs:
+            try:
+                p.wait(timeout=max(1, deadline - time.time()))
+            except subprocess.TimeoutExpired:
+                pass
+            try:
+                os.killpg(p.pid, signal.SIGKILL)
+            except (ProcessLookupError, PermissionError):
+                pass
+            p.wait()
+            lf.close()
+            if not os.path.exists(op):
+                again.append((be, mode, 'the run produced no record: ' + open(lp).read()[-300:]))
+                continue
+            r = json.load(open(op))
+            recs.append(r)
+            for k, how in sorted(r.get('unloadable', {}).items()):
+                who = ("the task's own run()" if mode == 'double_handled_run' else 'the application before run_tasks (inherited by the forked workers)')
+                viol.append(dict(what=f"end to end ({be}, {mode}): double Ctrl-C while the workers were inside the save, with a raising SIGTERM handler installed by {who}: "
+                                      f"afterwards task {k} is reported cached and {how} (handlers that ran in the terminated workers: {r.get('handler_ran')} of {len(r.get('save_started', []))}; entry files {r.get('files')})",
+                                 replay=dict(kind='e2e-handled', backend=be, mode=mode, rec=r, sig='hterm',
+                                             flavour=dict(hand=mode.rsplit('_', 1)[1], be=be), strike_point='inside pickle.dump of the result (a __reduce__ that sleeps)')))
+            if not r.get('unloadable') and (len(r.get('save_started', [])) < 2 or r.get('signals') != 2 or r.get('save_resumed')):
+                again.append((be, mode, f"the second Ctrl-C did not land while both workers were saving: {r}"))
+        if again and attempt < 1:
+            r2, v2, again = e2e_runs(only=[(b, m) for b, m, _ in again], attempt=attempt + 1)
+            recs += r2
+            viol += v2
+        return recs, viol, again
+    finally:
+        shutil.rmtree(tmp, ignore_errors=True)
+
+
 # ------------------------------------------------------------------ model side
 def model_of(rec, dry):
     """(SAVE line, k, durable) for a kill record"""
@@ -285,7 +430,7 @@ def model_of(rec, dry):
     n1, m1 = dry['n1'], dry['m1']
     sc = rec['sidecar']
     c = rec['case']
-    if c.get('sig') in ('int', 'exit') and not sc.get('completed'):
+    if c.get('sig') in SOFT and not sc.get('completed'):
         if 'point' in sc:
             pt = tuple(sc['point'])
             if pt[0] == 'write_split':
@@ -342,7 +487,7 @@ def evaluate(recs, dry_of):
         rec['model'] = mo
         rec['real'] = real_obs(rec)
         model_safe = mo.endswith('safe=1')
-        soft = c.get('sig') in ('int', 'exit')
+        soft = c.get('sig') in SOFT
         mo_cmp = ' '.join(w for w in mo.split() if not w.startswith('safe='))
         if soft:
             mo_cmp = mo_cmp.replace('raised=1', 'raised=0')
@@ -355,11 +500,25 @@ def evaluate(recs, dry_of):
             how = f" on the '{c['obs']}' backend with a Lab context" if c.get('obs') else ''
             violations.append(dict(what=f'after a kill during a save a later run_tasks{how} returned or newly cached a WRONG value instead of failing (' + rec['load'] + ')',
                                    replay=rep))
+        elif poisoned(rec) and c.get('sig') == 'hterm':
+            # never a known finding: F13a / F13b describe HARD kills; here the application / the task had arranged for
+            # SIGTERM to arrive as an exception, and on the unchanged code the save's cleanup then removes the entry
+            sc = rec['sidecar']
+            who = ("the task's own run()" if c.get('hand') == 'run' else 'the application before run_tasks (inherited by the forked worker)')
+            where = ('the fork worker (started through ProcessRunner._subprocess_func)' if c.get('be') == 'fork' else 'the serial-runner process')
+            fate = ('its SystemExit unwound through the save' if sc.get('unwound') else
+                    f"the handler did NOT run - SIGTERM disposition found at the strike: {sc.get('disposition')}; the process simply died")
+            violations.append(dict(what=f"handled SIGTERM ({c.get('hand')}/{c.get('be')}): a SIGTERM (second Ctrl-C -> ProcessExecutor.stop -> terminate()) landing mid-save "
+                                        f"(micro-step {rec['k']}, strike point {c['inj']}) in {where} executing the task, with a raising SIGTERM handler installed by {who}, "
+                                        f"left an entry that is reported cached and {'fails to load' if rec['load'] == 'fails' else 'loads ' + rec['load']} ({fate}): {rec['real']}",
+                                   replay=dict(rep, flavour=dict(hand=c.get('hand'), be=c.get('be')), strike_point=c['inj'], sig='hterm',
+                                               disposition_at_strike=sc.get('disposition'), handler_ran=bool(sc.get('unwound')))))
         elif poisoned(rec) and soft:
             violations.append(dict(what=f"a {'Ctrl-C (SIGINT -> KeyboardInterrupt)' if c['sig'] == 'int' else 'SystemExit'} landing mid-save (micro-step {rec['k']}) in the process executing the task left an entry that is reported cached and {'fails to load' if rec['load'] == 'fails' else 'loads ' + rec['load']}: {rec['real']}",
                                    replay=rep))
         elif poisoned(rec):
-            if not model_safe:
+            # hard kills only (c['sig'] in HARD): the windows of F13a / F13b
+            if not model_safe and c.get('sig') in HARD:
                 what = ('first save' if c['mode'] == 'first' else 'overwrite') + \
                     f": a kill inside the known window leaves an entry that is_cached reports and that {'fails to load' if rec['load'] == 'fails' else 'loads ' + rec['load']}"
                 violations.append(dict(what=what, replay=rep, known_match=KNOWN[c['mode']]))
@@ -372,7 +531,7 @@ def evaluate(recs, dry_of):
 
 
 # ------------------------------------------------------------------ enumeration
-def enumerate_cases(tier, dry_of):
+def enumerate_cases(tier, dry_of, seed=1):
     import savetasks as T
     idxs = [0, 2] if tier == 'quick' else sorted(T.GOOD)
     cases = []
@@ -412,6 +571,20 @@ def enumerate_cases(tier, dry_of):
                     c += 1
                     cases.append(dict(kind=kind, idx=idx, mode=mode, inj=['line', e], flush=0,
                                       sig='int' if c % 2 == 0 else 'exit'))
+                # handled SIGTERM: a real SIGTERM under a raising Python handler, at the same points, per flavour; the seed
+                # rotates which points the sampled (quick) tier takes
+                for hand, be in FLAVOURS:
+                    thorough = tier == 'thorough'
+                    if be == 'serial':
+                        ps, ls = (1 if (thorough or idx == 0) else 3), (1 if thorough else (2 if idx == 0 else 5))
+                    else:
+                        ps, ls = (1 if thorough else (2 if idx == 0 else 4)), (1 if thorough else (4 if idx == 0 else 10))
+                    for i, p in enumerate(pts):
+                        if (i + seed) % ps == 0:
+                            cases.append(dict(kind=kind, idx=idx, mode=mode, inj=list(p), flush=0, sig='hterm', hand=hand, be=be))
+                    for e in range(dry['lines']):
+                        if (e + seed) % ls == 0:
+                            cases.append(dict(kind=kind, idx=idx, mode=mode, inj=['line', e], flush=0, sig='hterm', hand=hand, be=be))
                 # a kill after the save (the task completed): trigger that never fires
                 cases.append(dict(kind=kind, idx=idx, mode=mode, inj=['line', 10 ** 6], flush=0, sig='kill'))
     # context-dependent task, later run on the spawn / fork backend: a handful of hard-kill points
@@ -449,6 +622,12 @@ def run(ctx):
     t0 = time.time()
     if ctx.get('replay'):
         rp = json.load(open(ctx['replay']))
+        if (rp.get('replay') or {}).get('kind') == 'e2e-handled':
+            er, ev, en = e2e_runs(only=[(rp['replay']['backend'], rp['replay']['mode'])])
+            if en:
+                return dict(infra_error='; '.join(x[2] for x in en)[:1500])
+            return dict(evaluations=len(er), distinct_nontrivial=len(er), rule='replay of one end-to-end double-Ctrl-C-while-saving run',
+                        samples=er[:1], violations=ev, disagreements=[])
         case = (rp.get('replay') or {}).get('case')
         if case is None:
             return dict(infra_error='replay file holds no save-crash case')
@@ -462,16 +641,22 @@ def run(ctx):
     if not ctx['driver_ok']:
         return dict(evaluations=0, disagreements=[dict(diff='driver does not build')], violations=[])
     dry_of = c12.dry_runs(kinds=('pickle', 'json', 'ctx'))
-    cases = enumerate_cases(tier, dry_of)
-    recs, errors = explore(cases, dry_of, 14, 50 if tier == 'quick' else 700)
+    cases = enumerate_cases(tier, dry_of, ctx.get('seed', 1))
+    import threading
+    ebox = {}
+    eth = threading.Thread(target=lambda: ebox.update(res=e2e_runs()))
+    eth.start()      # alongside: the end-to-end double Ctrl-C runs (mostly sleeping)
+    recs, errors = explore(cases, dry_of, 14, 120 if tier == 'quick' else 1200)
+    eth.join()
+    e2e_recs, e2e_viol, e2e_not = ebox.get('res', ([], [], [('?', '?', 'the end-to-end runs raised in the harness')]))
     infra = [r for r in recs if r.get('infra')]
     if errors or infra:
         return dict(infra_error='; '.join(errors + [r['infra'] for r in infra[:2]]))
     viol, dis = evaluate(recs, dry_of)
-    unknown = [v for v in viol if not v.get('known_match')]
+    unknown = [v for v in viol if not v.get('known_match')] + e2e_viol
     if (dis or not ctx['proof_ok']) and not unknown:
         # enlarged search: every write boundary and every line of every corpus result
-        cases2 = enumerate_cases('thorough', dry_of)
+        cases2 = enumerate_cases('thorough', dry_of, ctx.get('seed', 1))
         seen = {json.dumps(c, sort_keys=True) for c in cases}
         cases2 = [c for c in cases2 if json.dumps(c, sort_keys=True) not in seen]
         recs2, errors2 = explore(cases2, dry_of, 16, 900)
@@ -483,6 +668,16 @@ def run(ctx):
     unknown = sorted([v for v in viol if not v.get('known_match')],
                      key=lambda v: (v['replay']['case']['idx'], v['replay']['case']['kind'] != 'pickle',
                                     v['replay']['case']['mode'] != 'first', v['replay']['k']))
+    # one representative (the simplest failing input) per signal kind / flavour first, then the end-to-end runs, then the rest
+    fl = lambda v: (v['replay']['case'].get('sig'), v['replay']['case'].get('hand'), v['replay']['case'].get('be'))
+    reps, rest = {}, []
+    for v in unknown:
+        if fl(v) in reps:
+            rest.append(v)
+        else:
+            reps[fl(v)] = v
+    unknown = [dict(v, what=v['what'] + (f" ({sum(1 for w in unknown if fl(w) == k)} strike points of this flavour left a poisoned entry)" if k[0] == 'hterm' else ''))
+               for k, v in reps.items()] + e2e_viol + rest
     known = []
     for m in KNOWN.values():
         hits = [v for v in viol if v.get('known_match') == m]
@@ -497,28 +692,39 @@ def run(ctx):
         later_run_backend={k: sum(1 for r in recs if r['case'].get('obs') == k) for k in ('spawn', 'fork')},
         by_point={k: sum(1 for r in recs if r['case']['inj'][0] == k)
                   for k in ('fh_enter', 'fh_exit', 'write_pre', 'write_split', 'write_post', 'close_pre', 'close_post', 'line')},
-        by_signal={k: sum(1 for r in recs if r['case']['sig'] == k) for k in ('kill', 'term', 'int', 'exit')},
-        soft_kills_poisoned=sum(1 for r in recs if r['case']['sig'] in ('int', 'exit') and poisoned(r)),
+        by_signal={k: sum(1 for r in recs if r['case']['sig'] == k) for k in ('kill', 'term', 'int', 'exit', 'hterm')},
+        soft_kills_poisoned=sum(1 for r in recs if r['case']['sig'] in SOFT and poisoned(r)),
+        handled_sigterm={f'{h}/{b}': dict(strikes=sum(1 for r in recs if r['case']['sig'] == 'hterm' and (r['case']['hand'], r['case']['be']) == (h, b)
+                                                     and not r['sidecar'].get('completed')),
+                                        handler_ran=sum(1 for r in recs if r['case']['sig'] == 'hterm' and (r['case']['hand'], r['case']['be']) == (h, b)
+                                                        and r['sidecar'].get('unwound')),
+                                        struck_in_worker=sum(1 for r in recs if r['case']['sig'] == 'hterm' and (r['case']['hand'], r['case']['be']) == (h, b)
+                                                             and r['sidecar'].get('in_worker')))
+                        for h, b in FLAVOURS},
         buffer={'flushed_before_kill': sum(1 for r in recs if r['case']['flush']),
                 'dropped(native buffering)': sum(1 for r in recs if not r['case']['flush']),
                 'measured_not_durable': sum(1 for r in recs if not r['durable'])},
         model_says_poisoned=len(in_window), model_says_safe=len(recs) - len(in_window),
         real_poisoned=sum(1 for r in recs if poisoned(r)),
         real_poisoned_by_window={m: sum(1 for v in viol if v.get('known_match') == m) for m in KNOWN.values()},
+        end_to_end_double_ctrl_c_while_saving=[{k: r.get(k) for k in ('backend', 'mode', 'out', 'signals', 'save_started', 'save_resumed', 'handler_ran',
+                                                                     'cached', 'listed', 'unloadable', 'workers_gone_after')} for r in e2e_recs],
+        end_to_end_not_exercised=[list(x) for x in e2e_not],
         outcome_classes={}, wall_s=round(time.time() - t0, 1),
     )
     for r in recs:
         dist['outcome_classes'][r['real']] = dist['outcome_classes'].get(r['real'], 0) + 1
     return dict(
-        evaluations=len(recs), distinct_nontrivial=len({json.dumps(r['case'], sort_keys=True) for r in in_window}),
-        rule='enumerated kill points (storage-operation boundary / write-call boundary / mid-write split x buffer flushed or dropped; every executed line of cache.py+storage.py inside the save) x result x cache format x first/overwrite; non-trivial = the kill point lies inside a window that crash_safe_iff proves poisoned',
+        evaluations=len(recs) + len(e2e_recs), distinct_nontrivial=len({json.dumps(r['case'], sort_keys=True) for r in in_window}),
+        rule='enumerated kill points (storage-operation boundary / write-call boundary / mid-write split x buffer flushed or dropped; every executed line of cache.py+storage.py inside the save) x result x cache format x first/overwrite; handled SIGTERM (a real SIGTERM under a raising Python handler installed by the run() of the task or by the application) at the same points x {serial process, real fork worker}; non-trivial = the kill point lies inside a window that crash_safe_iff proves poisoned',
         samples=[dict(case=r['case'], k=r['k'], durable=r['durable'], real=r['real'], model=r['model'], files=r.get('files'))
                  for r in (in_window[:2] + recs[:1])],
         violations=unknown[:10] + known, disagreements=dis[:10], distribution=dist,
         assumptions=['SIGKILL / SIGTERM of the saving process; the OS page cache survives (no power loss): what was written to the file descriptor is on disk',
-                     'serial runner in a forked child (run_or_load_task and the save path are the same code in the process runners)',
+                     'hard kills: serial runner in a forked child (run_or_load_task and the save path are the same code in the process runners); handled SIGTERM: serial runner and the real fork backend (the worker signals itself at the strike point); spawn workers only in the end-to-end runs',
+                     'handled SIGTERM: the handler raises SystemExit (sys.exit(143)); a handler that swallows the signal or never returns is outside the clause',
                      'LocalStorage; a strict prefix of a stored document never parses as a complete document'],
-        explanation='a forked child runs the real Lab.run_tasks -> BaseCache.save -> LocalStorage and kills itself at the enumerated point; fresh interpreters then call is_cached / cached_tasks / run_tasks; outcome class compared per kill point with the Lean crash model, whose theorem crash_safe_iff characterises exactly the safe points; poisoned outcomes inside the two proved windows are the recorded known findings F13a/F13b, anything else poisoned or wrong is a violation',
+        explanation='a forked child runs the real Lab.run_tasks -> BaseCache.save -> LocalStorage and kills itself at the enumerated point; fresh interpreters then call is_cached / cached_tasks / run_tasks; outcome class compared per kill point with the Lean crash model, whose theorem crash_safe_iff characterises exactly the safe points; poisoned outcomes inside the two proved windows are the recorded known findings F13a/F13b, anything else poisoned or wrong - in particular a poisoned entry after a SIGTERM that a raising handler should have turned into an exception (strike machinery and 3 end-to-end double-Ctrl-C-while-saving runs on real fork / spawn workers) - is a violation',
     )
 
 
